@@ -186,9 +186,42 @@ def run(c):
                 if not c.violations:
                     c.violation({'property': 'C14', 'kind': 'strict compilation diagnostic', 'diagnostic': fails[0],
                                  'features_on': sorted(r[1]), 'config_yaml': r[2].text})
+    # the command line: `barectf generate --prefix=P` must produce what the same document produces with its prefix
+    # option set to P (identifier prefix P, file name prefix P without trailing underscores: barectf(1)); every
+    # generated file is compared (prototypes, C types of the clock callbacks, everything)
+    from checks import c19, c11
+    import yaml as _yaml
+    cli = {'configurations': 0, 'files_compared': 0, 'differences': 0}
+    for cs in cases[:(4 if c.tier == 'quick' else 20)]:
+        pref = lrnd.choice(['zz_', 'q_x_', 'my_pfx__'])
+        doc = _yaml.safe_load(cs.text.split('\n', 1)[1])
+        doc.setdefault('options', {}).setdefault('code-generation', {})['prefix'] = {'identifier': pref, 'file-name': pref.rstrip('_')}
+        from harness import gencfg as _g
+        text2 = _g.HEADER + _yaml.dump(doc, Dumper=_g.QuotingDumper, sort_keys=False, default_flow_style=False)
+        d = os.path.dirname(cs.exe)
+        rc1, err1, g1 = c19.cli_generate(cs.text, os.path.join(d, 'cliA'), pref)
+        rc2, err2, g2 = c19.cli_generate(text2, os.path.join(d, 'cliB'), None)
+        if rc1 != 0 or rc2 != 0:
+            c.inconclusive.append('CLI failed on a valid configuration: ' + (err1 or err2)[:200])
+            continue
+        cli['configurations'] += 1
+        f1 = {n: open(os.path.join(g1, n)).read() for n in sorted(os.listdir(g1))}
+        f2 = {n: open(os.path.join(g2, n)).read() for n in sorted(os.listdir(g2))}
+        for n in sorted(set(f1) | set(f2)):
+            cli['files_compared'] += 1
+            a, b = c11.strip_dates(n, f1.get(n, '')), c11.strip_dates(n, f2.get(n, ''))
+            if a != b:
+                cli['differences'] += 1
+                if not c.violations:
+                    la, lb = a.split('\n'), b.split('\n')
+                    k = next((i for i, (x, y) in enumerate(zip(la, lb)) if x != y), min(len(la), len(lb)))
+                    c.violation({'property': 'C14', 'kind': 'the files generated with --prefix differ from those generated from '
+                                 'the same document with that prefix configured (the documented API depends on how the prefix '
+                                 'was given)', 'file': n, 'first_difference': {'with --prefix': la[k:k + 2], 'configured': lb[k:k + 2]},
+                                 'cli_prefix': pref, 'config_yaml': cs.text})
     c.coverage.update({
         'correspondence': {'ctype_table': {'entries': ntab, 'differences': len(bad_tab), 'exhaustive': True},
-                           'feature_lattice': lat,
+                           'feature_lattice': lat, 'cli_prefix_equivalence': cli,
                            'prototypes': {'compared': ncmp, 'differences': nbad},
                            'strict_compiles': ncompiles, 'configs': len(cases),
                            'non_conformance_warnings_Wall_Wextra': sum(getattr(cs, 'nwarn', 0) for cs in cases)},
